@@ -249,8 +249,10 @@ fn main() {
                 for v in &r.violations {
                     *viol_count.entry(format!("{}/{}/{}", v.prop, v.rule, r.kind.name())).or_insert(0) += 1;
                 }
-                if let Some(v) = r.violations.first() {
-                    if viols.len() < 12 {
+                // report the violation of the property this worker is run for, if there is one
+                let tag = format!("C{:02}", p.prop);
+                if let Some(v) = r.violations.iter().find(|v| v.prop == tag).or(r.violations.first()) {
+                    if viols.len() < 12 || (v.prop == tag && viols.len() < 24) {
                         let cut = shrink(&p, i, v.prop, v.rule, r.ops);
                         let mut j = viol_json(&p, i, &r, v);
                         if let Some(c) = cut {
